@@ -134,7 +134,7 @@ fn add_dependencies_to_queue<'a>(
 ) {
     for dependency in dependencies {
         match dependency.node_to {
-            NodeKind::Source(_) => {}
+            NodeKind::Source(_) | NodeKind::AbsentSource(_) => {}
             NodeKind::Derived(dependency_id) => {
                 derived_node_id_queue.push(dependency_id);
             }
